@@ -220,6 +220,22 @@ def run(tier):
     run = X.ExecRun(PROP, tier)
     run.add_cases("c09", make_cases(tier))
     stats = judge(run)
+    # single-assignment with values that only LOOK equal (two different syntax nodes of one kind starting at the same position) and
+    # with null (a value like any other): against the machine
+    import checks.c04 as c04
+    run2 = X.ExecRun(PROP, tier)
+    run2.V = run.V
+    names = A.source_names()
+    nest = [j + 1 for j, nm in enumerate(names) if any(k in nm for k in ("s13_", "s17i_", "s02_"))]
+    ident = []
+    for k, f in enumerate(c04.identity_files()):
+        for src in nest:
+            ident += A.both_modes("c09i-%d-%d" % (k, src), f, src)
+    run2.add_cases("c09_ident", ident)
+    run2.classify_all()
+    stats["identity_cases"] = len(ident)
+    run.states += run2.states
+    run.trans += run2.trans
     cov = run.coverage(RULE, {"histories": stats})
     cov["evaluations"] = stats["runs"]
     cov["traces_validated_against_impl"] = stats["runs"]
